@@ -100,9 +100,9 @@ def units(tier):
 
 
 ASSUMPTIONS = [
-    'dynamic_check is a contract leaf: requires(g_noabort ==> check) ensures(check); abort()/throw do not return',
+    'dynamic_check is a contract leaf in the operator[] instances: requires(g_noabort ==> check) ensures(check); its body is proved against that contract by the dynamic_check units of this check (default and NDEBUG configuration); what stays assumed is that abort()/throw do not return',
     'std::array<T,N> is modelled as struct { T _M_elems[N]; } (libstdc++ layout; sizeof asserted against g++ on every run) and std::array::operator[] as _M_elems[i] (unchecked, like libstdc++)',
-    'index operands held in sandbox memory (tainted_volatile) are stable for the duration of one call',
+    'exact-element clause for an index held in sandbox memory (tainted_volatile index): the index cell is stable for the duration of the one call (the "which element" of a cell that changes has no meaning); the safety clause - designates an element of this array or aborts - is proved WITHOUT that assumption by the *_adversarial instances (goto-instrument --nondet-volatile: every read of the cell returns a fresh value)',
 ]
 TRUSTED = ['host and guest element sizes used by the spec (props/common.py HOST_SIZE / GUEST_SIZE), independent of the headers']
 
